@@ -20,6 +20,16 @@ SEEDS = {
     "c08-2": ("C08", "CsvPaths-managed member on a file with a blank line using total_lines()/percent (line monitor copy mixes data and physical totals)", ["C08"]),
     "c09-2": ("C09", "unmatched-mode keep with exactly one unmatched line: unmatched.csv not written", ["C09"]),
     "c10-2": ("C10", ":last/:first with a collision-suffixed run directory at hour >= 12 (suffix format parsed with %I)", ["C10"]),
+    "c11-2": ("C11", "add(name), remove(name), add(name) on the SAME CsvPaths instance (in-memory manifest cache goes stale after remove)", ["C11"]),
+    "c12-2": ("C12", "three adds on one group name whose content returns to an earlier version (A, B, A): the last change gets no manifest entry", ["C12"]),
+    "c13-2": ("C13", "advance(n) firing fewer than n scanned lines before an interior blank line or a gap in the scan window (non-scanned lines use up the count)", ["C13"]),
+    "c14-2": ("C14", "asbool combined with increase/decrease/onchange on a step where the write is blocked and y is truthy (asbool overwrites the negative vote)", ["C14"]),
+    "c15-2": ("C15", "print-mode no-default with an extra printer registered AFTER the standard-out printer (the last printer is removed instead)", ["C15"]),
+    "c16-2": ("C16", "a print string whose last character is a space (the user's own trailing space is stripped)", ["C16"]),
+    "c17-2": ("C17", "a function carrying three or more dot-qualifiers (only the first dot is split)", ["C17"]),
+    "c18-2": ("C18", "an abort on physical line 0: the error record gets line number -1", ["C18", "C05"]),
+    "c19-2": ("C19", "CsvPaths with a non-default delimiter/quotechar and a header cache populated by an earlier instance or process (cache read with the instance dialect)", ["C19"]),
+    "c20-2": ("C20", "a header reference to the FIRST header (index 0) of the referenced csvpath raises instead of returning the list", ["C20"]),
     "c02-1": ("C02", "lone reversed range whose low bound is 0 ([3-0]) with record 0 non-blank and a later non-blank record in range", ["C02"]),
     "c03-1": ("C03", "first() on a value first seen on line 0 that re-appears later; scan must include line 0", ["C03"]),
     "c05-1": ("C05", "validation-mode whose FIRST token is no-stop, a non-raising error, and at least one more line after it", ["C05"]),
